@@ -39,3 +39,7 @@ def handleChain (args : List (String × String)) : String :=
   | _, _, _ => "bad-op"
 
 end Litestream.Driver
+
+namespace Litestream.Driver
+def planHandlers : Handlers := [("plan", handlePlan), ("chain", handleChain)]
+end Litestream.Driver
